@@ -437,6 +437,19 @@ func (c *conn) evaluate(sql string, tr *Translated, st *fakepg.Stmt, bound []Bou
 		c.sendErr(1235, "42000", err.Error())
 		return
 	}
+	if tr.Upsert != nil {
+		n, err := c.s.execUpsert(tr.Upsert, params)
+		if err != nil {
+			var se *fakepg.SQLError
+			if !errors.As(err, &se) || se.Code == "08P01" {
+				c.s.noteUnsupported(sql, err)
+			}
+			c.sqlError(err)
+			return
+		}
+		c.sendOK(n, 0, "")
+		return
+	}
 	res, err := c.s.DB.Exec(st, params)
 	if err != nil {
 		var se *fakepg.SQLError
@@ -471,6 +484,9 @@ func (s *Server) parse(sql string) (*Translated, *fakepg.Stmt, error) {
 	tr, err := Translate(sql)
 	if err != nil {
 		return nil, nil, err
+	}
+	if tr.Upsert != nil {
+		return tr, nil, nil
 	}
 	st, err := fakepg.Parse(tr.PG)
 	if err != nil {
@@ -603,7 +619,7 @@ func (s *Server) serve(id int, nc net.Conn) {
 				c.sendErr(1235, "42000", err.Error())
 				break
 			}
-			if st.Kind == "Empty" {
+			if st != nil && st.Kind == "Empty" {
 				c.sendErr(1065, "42000", "Query was empty")
 				break
 			}
@@ -636,7 +652,10 @@ func (s *Server) serve(id int, nc net.Conn) {
 					break
 				}
 				p.tr, p.st, p.nParams = tr, st, tr.Placeholders
-				fields, err := s.DB.Describe(st)
+				var fields []fakepg.Field
+				if st != nil {
+					fields, err = s.DB.Describe(st)
+				}
 				if err != nil {
 					if errors.Is(err, fakepg.ErrUnsupported) {
 						s.noteUnsupported(sql, err)
